@@ -283,3 +283,17 @@ def handwritten_quadrature(ctx, rule, it, value_nf, roots, construct, where, xna
             zero_ok = True
     ctx.check(zero_ok, rule, construct + ":initial", where, "the running integral is prefixed with a zero (result starts at zero and has the length of the grid)", signature="initial", value=nf.show(value_nf, 300))
     return ynf
+
+
+def check_tolerances(ctx, rule, construct, where, args, limits, what):
+    """limits: {keyword: ('max', bound) | ('min', bound)}; a keyword that is absent keeps the library default"""
+    from fractions import Fraction
+
+    loose = []
+    for kw, (kind, bound) in limits.items():
+        v = args.get(kw)
+        if v is None or not isinstance(v, Num):
+            continue
+        if not nf.is_const(v.nf) or (kind == "max" and nf.cval(v.nf) > Fraction(bound)) or (kind == "min" and nf.cval(v.nf) < Fraction(bound)):
+            loose.append(f"{kw}={nf.show(v.nf, 30)}")
+    ctx.check(not loose, rule, construct, where, what, signature="loose " + ",".join(loose), given={k: nf.show(args[k].nf, 30) for k in limits if isinstance(args.get(k), Num)})
